@@ -290,3 +290,24 @@ Proof.
   split; [vm_compute; reflexivity|]. split; [vm_compute; reflexivity|]. split; [vm_compute; reflexivity|].
   intros st. rewrite (scan_result_state_independent cfg_all st dstate0). vm_compute. reflexivity.
 Qed.
+
+(* ---------- theorem 7 at FILE level: every block of the file in any layout ---------- *)
+(* ms are the trees actually fed to the n workers (block k on worker k mod n, any worker states);
+   each is some layout of the corresponding valid block description.  Wave 5: closes "canonical
+   layout only at file level". *)
+Lemma scan_file_from_layout c n : forall (f : list block_d) ms, forallb valid_block f = true ->
+  Forall2 (fun m b => canon_block m = encode_block b) ms f ->
+  forall states k, scan_file_from c n states k ms = Ok (filter (keeps c) (flat_map elements f)).
+Proof.
+  intros f ms Hv HF. revert Hv. induction HF as [|m b ms f Hmb HF IH]; intros Hv states k; simpl; [reflexivity|].
+  simpl in Hv. apply andb_prop in Hv. destruct Hv as [Hb Hf].
+  pose proof (field_order_irrelevant b m Hb Hmb c (nth (Nat.modulo k n) states dstate0)) as Hr.
+  unfold scan_result in Hr.
+  destruct (scan_block c (nth (Nat.modulo k n) states dstate0) m) as [[st' q]| |]; try discriminate.
+  injection Hr as ->. rewrite (IH Hf). rewrite filter_app. reflexivity.
+Qed.
+
+Theorem scan_file_layout c n (f : list block_d) ms : forallb valid_block f = true ->
+  Forall2 (fun m b => canon_block m = encode_block b) ms f ->
+  scan_file c n ms = Ok (filter (keeps c) (flat_map elements f)).
+Proof. intros Hv HF. unfold scan_file. apply scan_file_from_layout; assumption. Qed.
